@@ -47,7 +47,7 @@ class C08(Check):
         dec = rng.choice(["AllVisibleDecision", "AllVisibleDecision", "MyopicNaiveGreedyDecision", "MyopicNaiveGreedyDecision", "MunkresDecision", "MunkresDecision", "RandomDecision"])
         ns = rng.randrange(2, 5) if dec != "MunkresDecision" else rng.randrange(3, 5)
         cfg = gen.network_case(rng, nsteps=rng.randrange(2, 5), n_sensors=ns, n_targets=rng.randrange(2, 6), coarse=True if narrow else None,
-                               narrow_fov=narrow, decision=dec, model="two_body" if rng.random() < 0.9 else None, out_mult=1,
+                               narrow_fov=narrow, decision=dec, model="two_body" if rng.random() < 0.9 else None, out_mult=rng.choice([1, 1, 1, 2, 3]),
                                space_sensor_p=0.1, two_engines_p=0.2, geo_p=0.75, placed_p=0.95, cluster_p=0.35, background=rng.random() < 0.7,
                                kinds=("radar", "adv_radar", "optical") if rng.random() < 0.3 else ("radar", "adv_radar"), masks=rng.random() < 0.4)
         if narrow:
